@@ -152,6 +152,9 @@ func ParseDeb822(s string) (*Deb822, error) {
 			if len(d.Fields) == 0 {
 				return d, fmt.Errorf("deb822: continuation line %d before any field", ln)
 			}
+			if strings.TrimSpace(line) == "" {
+				return d, fmt.Errorf("deb822: line %d consists of blanks only (dpkg: blank line in value of field %s)", ln, d.Fields[len(d.Fields)-1].K)
+			}
 			d.Fields[len(d.Fields)-1].V += "\n" + line[1:]
 			continue
 		}
